@@ -1,8 +1,99 @@
 import TRV.Oracle.Util
-/-! Oracle operations: Params (stub, filled in by the module that owns it). -/
+import TRV.Oracle.Policy
+import TRV.Spec.Params
+/-! Oracle operations for the parameter-path model (C19). The two code-description booleans are passed
+    in by the harness (it reads them from the regenerated `TRV/Generated/ParamsFacts.lean`), so the
+    oracle itself does not depend on generated files. -/
 namespace TRV.Oracle.Params
-open TRV.Oracle
+open TRV TRV.Oracle TRV.Params TRV.Spec.Params
 
-def handlers : List (String × Handler) := []
+def parseProto (s : String) : Option Proto :=
+  if s = "udp" then some .udp else if s = "tcp" then some .tcp
+  else if s = "icmp" then some .icmp else if s = "other" then some .other else none
+
+def showProto : Proto → String
+  | .udp => "udp" | .tcp => "tcp" | .icmp => "icmp" | .other => "other"
+
+def parseKind (s : String) : Option Kind :=
+  if s = "none" then some .none else if s = "syn" then some .syn else if s = "sack" then some .sack else none
+
+def showKind : Kind → String
+  | .none => "none" | .syn => "syn" | .sack => "sack"
+
+def parseLit (s : String) : Option LitPort :=
+  if s = "-" then some .absent else if s = "g" then some .garbage else (parseInt s).map .num
+
+def parseAvail (s : String) : Option Avail :=
+  if s = "capable" then some .capable else if s = "unsupported" then some .unsupported
+  else if s = "fatal" then some .fatal else none
+
+def showNats (l : List Nat) : String :=
+  if l.isEmpty then "-" else ",".intercalate (l.map toString)
+
+def parseNats (s : String) : Option (List Nat) :=
+  if s = "-" then some [] else (splitOn s ',').mapM (·.toNat?)
+
+/-- `<proto> <method> <min> <max> <port> <litport> <v6> <avail>` -/
+def parseP : List String → Option P
+  | [pr, m, mn, mx, port, lit, v6, av] => do
+    let pr ← parseProto pr
+    let m ← TRV.Oracle.Policy.parseMethod m
+    let mn ← parseInt mn; let mx ← parseInt mx; let port ← parseInt port
+    let lit ← parseLit lit
+    let v6 ← parseBool v6
+    let av ← parseAvail av
+    pure { proto := pr, method := m, minTTL := mn, maxTTL := mx, port := port, litPort := lit, v6 := v6, avail := av }
+  | _ => none
+
+def showOutcome : Outcome → String
+  | .reject => "reject"
+  | .crash => "crash"
+  | .plan pl =>
+    let port := match pl.port with | some q => toString q | none => "-"
+    s!"plan {showProto pl.proto} {showKind pl.kind} {port} {showBool pl.v6} {showNats pl.ttls}"
+
+def parseOutcome : List String → Option Outcome
+  | ["reject"] => some .reject
+  | ["crash"] => some .crash
+  | ["plan", pr, k, port, v6, ttls] => do
+    let pr ← parseProto pr
+    let k ← parseKind k
+    let port ← if port = "-" then some none else port.toNat?.map some
+    let v6 ← parseBool v6
+    let ttls ← parseNats ttls
+    pure (.plan { proto := pr, kind := k, port := port, v6 := v6, ttls := ttls })
+  | _ => none
+
+/-- `par.run <ttlRangeChecked> <sackTableInt> <P…>` -/
+def runH : Handler
+  | tc :: si :: rest => orBad do
+    let tc ← parseBool tc; let si ← parseBool si
+    let p ← parseP rest
+    pure (showOutcome (run tc si p))
+  | _ => badOp
+
+/-- `par.spec <P…> ; <observed outcome>` → is the observation acceptable (rejected, or honoured)? -/
+def specH : Handler := fun toks =>
+  let (ptoks, rest) := toks.span (· != ";")
+  orBad do
+    let p ← parseP ptoks
+    let o ← parseOutcome (rest.drop 1)
+    pure (showBool (acceptable p o))
+
+/-- `par.sacksend <sackTableInt> <min> <max>`: the SACK driver alone, `SendProbe` for every TTL of
+    the (narrowed) range → `ok` | `crash` | `reject` (range invalid after narrowing) -/
+def sackSendH : Handler
+  | [si, mn, mx] => orBad do
+    let si ← parseBool si
+    let mn ← parseInt mn; let mx ← parseInt mx
+    let min8 : Nat := TRV.Params.u8 mn
+    let max8 : Nat := TRV.Params.u8 mx
+    pure (match sackSend (sackTableLen si max8) (ttlList min8 max8) with
+      | some _ => "ok"
+      | none => "crash")
+  | _ => badOp
+
+def handlers : List (String × Handler) :=
+  [("par.run", runH), ("par.spec", specH), ("par.sacksend", sackSendH)]
 
 end TRV.Oracle.Params
